@@ -17,7 +17,7 @@ meta = {
                          "patch applied: builds, make check passes, demo.sh exits non-zero",
                   "result": confirm},
     "detected_by": caught,
-    "checked_with": "tools/try_seed.sh patch.diff %s (git -C /repo apply; ./check; git -C /repo checkout -- .)" % prop,
+    "checked_with": "tools/try_scratch.sh patch.diff %s (scratch copy of /repo outside /repo and /verif, patch applied there, ./check with VERIF_REPO, copy removed)" % prop,
 }
 json.dump(meta, open(os.path.join(dst, "meta.json"), "w"), indent=1)
 print("kept", dst, sorted(os.listdir(dst)))
